@@ -99,3 +99,12 @@ pub const NL: &[&str] = &[
     "vijftien", "vijftiende", "vijftig", "vijftigste", "zes", "zesde", "zestien", "zestiende", "zestig",
     "zestigste", "zeven", "zevende", "zeventien", "zeventiende", "zeventig", "zeventigste", "één", "ën",
 ];
+
+/// The linking ("insignificant") words of each interpreter, extracted once from the pinned tree.
+pub const LINK_EN: &[&str] = &["and", "ha", "ah", "hu", "hum", "minus", "more", "ok", "plus", "so", "that's", "then", "uh", "well", "yeah", "yes", "is"];
+pub const LINK_FR: &[&str] = &["alors", "bien", "c'est", "encore", "ensuite", "et", "euh", "heu", "ha", "ah", "hu", "hum", "moins", "ok", "oui", "plus", "puis", "voilà"];
+pub const LINK_ES: &[&str] = &["pues", "y", "digo", "o", "sea", "entonces", "así", "que", "bueno", "es", "eso", "en", "fin", "luego", "mas", "menos", "pero", "vale", "eh", "ah", "oye", "ya", "hum", "ok", "sí", "no", "con", "son"];
+pub const LINK_PT: &[&str] = &["eh", "então", "bem", "isso", "outra vez", "e", "uh", "ha", "ah", "hu", "um", "menos", "ok", "sim", "mais", "aí está", "digo", "ou", "seja", "aquele", "é", "aquilo", "em", "fim", "mais tarde", "mas", "ei", "agora", "hum", "não", "com", "são", "novamente"];
+pub const LINK_IT: &[&str] = &["e", "ehm", "più", "poi", "ancora", "meno", "è", "ben"];
+pub const LINK_DE: &[&str] = &["aber", "ah", "äh", "ähm", "also", "gut", "auch", "denn", "doch", "dort", "eben", "eh", "halt", "ja", "mal", "sehen", "naja", "nun", "ok", "schon", "so", "genau", "und", "noch"];
+pub const LINK_NL: &[&str] = &["ja", "dus", "plus", "uh", "dan", "min", "dat", "is"];
